@@ -11,6 +11,10 @@ RULE = ('one record per (key, message, chunking): tag must equal the RFC 8439 bi
 ASSUMPTIONS = ['big-int Poly1305 model pinned by RFC 8439 2.5.2, A.3 vectors and openssl mac poly1305']
 FLOORS = {'evaluations': 12000, 'distinct': 3000}
 THOROUGH_ROUNDS = 30   # thorough tier: generator passes with derived seeds (runner.gen_rounds)
+EXTRA_CFGS = ['f32']   # the workload is also executed by the force-32bits build of the library; results must not change (runner.standard_check)
+# bulk phase (cxv/bulk.py): random and 00/ff-run keys and messages of 0..96 bytes in two input calls; every call is recomputed by the big-integer model
+BULK = {'quick': [('poly1305', 1 << 20, 1 << 14)], 'thorough': [('poly1305', 1 << 23, 1 << 16)]}
+BULK_SECOND_BACKEND = False
 P = (1 << 130) - 5
 CLAMP = 0x0ffffffc0ffffffc0ffffffc0fffffff
 
